@@ -87,11 +87,13 @@ impl RoutingTable {
             return false;
         }
 
-        if self
-            .buckets()
-            .values()
-            .any(|bucket| node.already_exists(&bucket.nodes))
-        {
+        // An entry with the same Id is not a conflict, it is either refreshed
+        // or rejected by its bucket below.
+        if self.buckets().values().any(|bucket| {
+            bucket.nodes.iter().any(|existing| {
+                existing.id() != node.id() && node.already_exists(std::slice::from_ref(existing))
+            })
+        }) {
             return false;
         };
 
